@@ -145,6 +145,18 @@ def body(chk):
         "pixel patterns name their own cell; special float bit patterns (+-0, +-inf, quiet/signalling NaN payloads, "
         "denormals, max) and 0 / 65535 are planted in every image",
     ]
+    # the file the pixels come from is the one that was OPENED: a product indexed next to its images (CLI), then copied elsewhere with its
+    # index files while the old place receives other pixels under the same names, is read from where it lies now
+    from checks import C07 as _c07
+
+    rtasks = [dict(level=lv, fs=fs, producer="cli-adjacent-moved", rpc_w=1, rpc_r=3, seed=chk.seed + 31000 + i) for i, (lv, fs) in enumerate((("1.5", "local"), ("1.1", "file")))]
+    L.instances([dict(file="volume", nfp=4), dict(file="image", kind="processed", n=4, ndata=6, bps=2), dict(file="image", kind="processed", n=3, ndata=4, bps=2),
+                 dict(file="image", kind="signal", n=4, ndata=24, bps=8), dict(file="image", kind="signal", n=3, ndata=16, bps=8)])
+    for res in checklib.pmap(_c07.scenario, rtasks, chk.scratch):
+        chk.count(len(res["steps"]), f"relocated:{res['task']['level']}:{res['task']['fs']}")
+        for what, msg in res["bad"]:
+            if what.startswith("cached-open"):
+                chk.violation(f"pixels:relocated-index:{res['task']['fs']}", f"product copied elsewhere together with its index files, old place overwritten: {msg}", {"task": res["task"]})
     from harness import sessioncheck
 
     sessioncheck.standard(chk)
